@@ -334,3 +334,11 @@ mutant("c11-purge-coefficient-empties", "C11", "R11.6/polynomial::Polynomial::<N
 mutant("c11-purge-leading-empties", "C11", "R11.6/polynomial::Polynomial::<N>::purge_leading/pop-guarded", (PM, "        while self.coefficients.len() > 1\n            && self.coefficients.last().unwrap().real().abs() <= self.tolerance", "        while !self.coefficients.is_empty()\n            && self.coefficients.last().unwrap().real().abs() <= self.tolerance"))
 benign("c11-purge-coefficient-early-returns", "C11", (PM, "        match self.coefficients.len() {\n            len if power >= len => {}\n            len if len == power + 1 && len != 1 => {\n                self.coefficients.pop();\n            }\n            _ => {\n                self.coefficients[power] = N::from_f64(0.0).unwrap();\n            }\n        };",
        "        let count = self.coefficients.len();\n        if power >= count {\n            return;\n        }\n        let is_leading = count == power + 1;\n        if is_leading && count != 1 {\n            self.coefficients.pop();\n            return;\n        }\n        let slot = &mut self.coefficients[power];\n        *slot = N::from_f64(0.0).unwrap();"))
+
+# ---- R7.12 Brent's safeguards
+mutant("c07-brent-safeguard-third-clause-flag", "C07", "R7.12/roots::brent/bisects-when-step-not-halved:after-interpolation", (RM, "|| (!mflag && (s - right).abs() >= (c - d).abs() / two)", "|| (mflag && (s - right).abs() >= (c - d).abs() / two)"))
+mutant("c07-brent-safeguard-tol-clause-dropped", "C07", "R7.12/roots::brent/bisects-when-previous-step-below-tol:after-bisection", (RM, "            || (mflag && (right - c).abs() < tol)\n", ""))
+benign("c07-brent-safeguard-more-conservative", "C07", (RM, "|| (!mflag && (s - right).abs() >= (c - d).abs() / two)", "|| (!mflag && (s - right).abs() >= (c - d).abs() / four)"))
+
+# ---- R14.9 (fix fde9295 inverted): the vanishing-denominator guard of the Laguerre step
+mutant("c14-laguerre-no-zero-denominator-guard", "C14", "R14.9/Polynomial::roots/first-step-defined", (PM, "            let a = if denominator.abs() > N::RealField::zero() {\n                order / denominator\n            } else {", "            let a = if denominator.abs() >= N::RealField::zero() {\n                order / denominator\n            } else {"))
